@@ -40,12 +40,18 @@ def gen_time(rng, grid=GRID):
 
 EPOCH_GRID = [0, 0, 1, -1, -86_400_000_000, 3_600_000_000, -1_000_000, 999_999, BASE_US, -2_208_988_800_000_000]
 
+# instants later than "now" (year 2200): a point stamped with the insertion time is then NOT the newest one
+Y2200_US = 7_258_118_400_000_000
+FUTURE_GRID = [BASE_US, BASE_US + 1, BASE_US - 3_600_000_000, Y2200_US, Y2200_US + 1, Y2200_US - 1, Y2200_US + 86_400_000_000, BASE_US + 3_600_000_000]
+
 
 def gen_point(rng, meas=MEAS, allow_no_time=False, extra_tag_vals=(), extra_meas=(), extra_tag_keys=(), extra_field_keys=(), grid=None):
     """A point spec: {"t": ("T",us,off)|None, "m": str|None, "tags", "fields"}."""
     p = {}
     if allow_no_time and rng.random() < 0.1:
         p["t"] = None
+        if rng.random() < 0.5:
+            p["bare"] = True  # built as Point() and filled in by assignment: no time at all until the insert
     else:
         p["t"] = gen_time(rng, grid or GRID)
     r = rng.random()
